@@ -621,7 +621,8 @@ func (c *Ctx) genC19() {
 	}
 	entities := []string{"https://spa.example.com/md", "https://spb.example.com/md", "https://spc.example.com/md"}
 	users := []string{"alice", "bob", "carol"}
-	pws := []string{"pw-a", "pw-b", "wrong", ""} // the empty string is a password like any other: present in the body, stored, required at login
+	pws := []string{"pw-a", "pw-b", "wrong", "", "pw-a\x00pw-a", strings.Repeat("k", 73)} // (the last two: strings bcrypt cannot tell apart from others - refused at PUT and at login)
+	// the empty string is a password like any other: present in the body, stored, required at login
 	for h := 0; h < histories; h++ {
 		w := c.newIdpWorld()
 		var sids []string
@@ -702,7 +703,7 @@ func (c *Ctx) genC19() {
 				u := users[c.rng.Intn(3)]
 				var p *string
 				if c.chance(0.5) && pwBudget > 0 {
-					x := []string{"pw-a", "pw-b", "pw-a", "pw-b", ""}[c.rng.Intn(5)]
+					x := []string{"pw-a", "pw-b", "pw-a", "pw-b", "", "pw-a", "pw-b", "a\x00b", strings.Repeat("k", 73), strings.Repeat("k", 72)}[c.rng.Intn(10)]
 					p = &x
 					pwBudget--
 				}
@@ -761,7 +762,7 @@ func (c *Ctx) genC19() {
 					continue
 				}
 				pwBudget--
-				res := w.login(users[c.rng.Intn(3)], pws[c.rng.Intn(4)], true, "", faults())
+				res := w.login(users[c.rng.Intn(3)], pws[c.rng.Intn(len(pws))], true, "", faults())
 				for sid, l := range w.sids {
 					if strings.HasSuffix(res, "/"+l) && !containsStr(sids, sid) {
 						sids = append(sids, sid)
@@ -775,7 +776,7 @@ func (c *Ctx) genC19() {
 				if hasCred {
 					pwBudget--
 				}
-				res := w.sso(ent, c.chance(0.9), users[c.rng.Intn(3)], pws[c.rng.Intn(4)], hasCred, pickSid(), c.pick("rs", "", "a&b=c"), faults())
+				res := w.sso(ent, c.chance(0.9), users[c.rng.Intn(3)], pws[c.rng.Intn(len(pws))], hasCred, pickSid(), c.pick("rs", "", "a&b=c"), faults())
 				for sid, l := range w.sids {
 					if strings.HasSuffix(res, "/"+l) && !containsStr(sids, sid) {
 						sids = append(sids, sid)
